@@ -1,4 +1,5 @@
 import Dmn.Model.DecisionTable
+import Dmn.Model.ReqDfs
 
 /-!
 # Building a model evaluator: the places where `ModelEvaluator::new` / `evaluate_invocable`
@@ -19,8 +20,13 @@ can panic or fail to terminate (C12)
    Each is modelled with **fuel** = a bound on the depth of reference-following; running out
    of fuel is the outcome `diverge` (the implementation overflows its stack).
 3. Since aff91af / b66efe5 `ModelEvaluator::new` first checks that these chains end
-   (`check_requirements`, `model_evaluator.rs:50-93`; `check_references`,
-   `item_definition.rs:75-93`): a chain longer than the number of elements is an error.
+   (`check_requirements`, `model_evaluator.rs:54-106`; `check_references`,
+   `item_definition.rs:74-97`).  Until ba4278d / 5e48a41 both counted the length of the chain (a chain
+   longer than the number of elements is an error: `reqChain`, `itemChain`), which walks every path of
+   the graph; since then both are depth-first searches with a `chain` and a `checked` set
+   (`Dmn.ReqDfs.dfs`).  `reqCheck` is the search; `itemCheck` still is the chain-length formulation
+   (same answer, tied by the graph correspondence; the generic equivalence `ReqDfs.dfsCheck_eq` is
+   instantiated for the requirements only).
 
 Identifiers and item-definition names are numbers here (the harness numbers them); they are
 assumed pairwise distinct per kind.
@@ -367,8 +373,10 @@ def reqList (d : Defs) (id : Nat) : List Nat :=
 def reqsOf (d : Defs) (id : Nat) : Option (List Nat) :=
   if id ∈ allIds d then some (reqList d id) else none
 
-/-- `check_chain(id, requirements, length)` with `budget` = the number of further elements the
-chain may still visit: `length > requirements.len()` is `budget = 0`. -/
+/-- `check_chain(id, requirements, length)` as it was before the repair ba4278d, with `budget` = the number
+of further elements the chain may still visit (`length > requirements.len()` is `budget = 0`).  It is the
+instance `ReqDfs.chainOk (reqsOf d)` of the generic chain-length check and remains the *specification* of
+the answer: the lemmas about bounded depth are stated with it. -/
 def reqChain (d : Defs) : Nat → Nat → Bool
   | budget, id =>
     match reqsOf d id with
@@ -381,8 +389,15 @@ def reqChain (d : Defs) : Nat → Nat → Bool
 /-- `requirements.len()`. -/
 def nodeCount (d : Defs) : Nat := (allIds d).eraseDups.length
 
-/-- `requirements.keys().try_for_each(|id| check_chain(id, &requirements, 1))`. -/
-def reqCheck (d : Defs) : Bool := (allIds d).all (reqChain d (nodeCount d))
+/-- The check before the repair: `requirements.keys().try_for_each(|id| check_chain(id, &requirements, 1))`
+with the chain-length `check_chain`. -/
+def reqCheckChains (d : Defs) : Bool := (allIds d).all (reqChain d (nodeCount d))
+
+/-- `check_requirements` since ba4278d (`model_evaluator.rs:86-105`): `check_chain` is a depth-first search
+with the sets `chain` and `checked` (`ReqDfs.dfs`), run from every key with a fresh `chain` and one
+`checked`.  Same answer as `reqCheckChains` (`reqCheck_eq_chains`), every element expanded at most once
+(`check_chain_linear`). -/
+def reqCheck (d : Defs) : Bool := ReqDfs.dfsCheck (reqsOf d) (allIds d)
 
 /-- `ModelEvaluator::new` as far as references are followed: the requirement graph must be
 acyclic; input data need a type reference; item definitions must not refer to themselves; then
